@@ -23,6 +23,19 @@ and checked against the full (sleep-disabled, default nvmax) solve of the same s
   * no overflow: qfrc_constraint of awake dofs equals J^T efc.force restricted to them (f32dyn)
   * sleep-disabled model: make_data(nvmax=k) forward equals make_data() forward bit for bit (full path), no NVMAX bit
   * sleep-enabled model: make_data(nvmax=nv) equals make_data() bit for bit
+
+Worlds WITHOUT constraint rows (`free` scenes, nefc == 0).  The scenes above put every tree of every world under
+constraints.  A second model (free box, free sphere, frictionless unlimited 2-hinge arm hanging in the air: T=3, nv=14,
+no joint carries a limit or friction loss) has two world states: `A` airborne (MuJoCo: nefc == 0, no tree has a
+constraint) and `C` contact (box, and for even alphabets the sphere, resting on the floor; the arm never has a row).
+Every call sequence of length 1 and 2 over the per-world alphabet {A,C}^2 is executed on ONE sleep-enabled Data whose
+`wp.empty` buffers are filled with a poison byte (every byte of world.POISON_ALPHABET):
+  AA              `airborne`  (no world has a row)               AC, CA   `mixed` batch
+  CC              `contact`   (control)                          x -> y   `history` (forward at x, same Data moved to y, forward)
+length-1 sequences also run every awake subset (forced as above, outputs pre-filled with garbage) and two mjw.step
+calls (all awake).  Oracle as above: the sleep-disabled full solve of the same state on a fresh Data (qacc, qacc_smooth,
+qfrc_constraint, nefc; frozen dofs exactly 0); additionally in an `A` world qfrc_constraint must be 0 (relative to the
+smooth force) and qacc must equal MuJoCo's gravity-only acceleration.
 """
 
 import numpy as np
@@ -35,11 +48,15 @@ RULE = (
   "scenes {apart, coupled} x jacobian {dense, sparse} x cone {pyramidal, elliptic} x every nvmax 0..nv x every awake subset of the "
   "T=3 trees (world 0; world 1 carries a second subset) x entries {forward, resolve, api}; a fault is injected when the awake dofs "
   "exceed nvmax; non-trivial = every tree of the all-awake reference carries non-zero constraint forces and at least one subset froze "
-  "a tree (zero-acceleration oracle exercised on garbage-filled outputs) or overflowed (fault injected); distinct = (scene, jacobian, cone, nvmax, world-1 map)"
+  "a tree (zero-acceleration oracle exercised on garbage-filled outputs) or overflowed (fault injected); distinct = (scene, jacobian, cone, nvmax, world-1 map). "
+  "free scenes (worlds without constraint rows): every call sequence of length 1..2 over per-world states {A airborne, C contact}^2 "
+  "x jacobian x cone x every poison byte of the wp.empty buffers; length 1 additionally x every awake subset and a 2-step run; "
+  "non-trivial = MuJoCo reports nefc == 0 in every A world and nefc > 0 in every C world of every call; distinct = (sequence, jacobian, cone, poison, alphabet)"
 )
 BOUNDS = {
-  "quick": "nv=12, T=3, nvmax 0..12 all, 8 subsets for world 0 with world 1 = bijective image (3s+5 mod 8), 2 worlds, 1 state alphabet per seed",
-  "thorough": "same plus all 64 (world 0, world 1) subset pairs and a second state alphabet",
+  "quick": "nv=12, T=3, nvmax 0..12 all, 8 subsets for world 0 with world 1 = bijective image (3s+5 mod 8), 2 worlds, 1 state alphabet per seed; "
+  "free scenes: nv=14, T=3, 4+16 call sequences, 4 poison bytes, 8 subsets (length-1 sequences), default nvmax, 1 state alphabet",
+  "thorough": "same plus all 64 (world 0, world 1) subset pairs and a second state alphabet (also for the free scenes)",
 }
 ASSUMPTIONS = [
   "awake sets are forced through Data.tree_asleep self-cycles + sleep.update_sleep (the mechanism of sleep_test.py); sleeping trees carry zero velocity",
@@ -49,9 +66,12 @@ ASSUMPTIONS = [
   "rows of sleeping trees (limits, friction loss) stay in MJWarp's constraint list with a zero compacted Jacobian; their efc.force is not compared",
   "when NVMAX overflows the numerical result is unspecified; only the bit, ncdof clamp and absence of a crash are checked",
   "the `api` entry calls island.update_active_dofs / solver.smooth_solve_compact / solver.solve_compact directly, like solver_test.CompactSolverTest",
+  "free scenes: uninitialised (wp.empty) buffers are modelled by the four poison bytes of mc.world (set while the sleep-enabled Data is made and used; the "
+  "reference runs unpoisoned); a world without rows has qacc = qacc_smooth and qfrc_constraint = 0 exactly in the full solve, the compacted solve may differ by f32dyn",
+  "free scenes, second call of a history: only qpos and qvel are replaced (as a user would), nothing else of the Data is touched between the two forward() calls",
   "CPU backend only",
 ]
-BUDGET = {"quick": 500, "thorough": 3400}
+BUDGET = {"quick": 600, "thorough": 3600}
 NVMAX_BIT = 1 << 7
 NW = 2
 GARBAGE = 7.625
@@ -80,6 +100,29 @@ SCENES = {
   "apart": dict(epos="0.8 0 0.3", eq=""),
   "coupled": dict(epos="0.14 0 0.3", eq='<equality><connect body1="c2b" body2="e" anchor="0 0 -0.28" solref="0.05 1"/></equality>'),
 }
+# no limit, no friction loss, no equality: a tree has constraint rows only while it touches the floor; the arm never does
+FREE_XML = """<mujoco>
+  <compiler angle="radian"/>
+  <option timestep="0.004" jacobian="{jac}" cone="{cone}" sleep_tolerance="0.01" iterations="40">{flag}</option>
+  <default><geom friction="0.8 0.02 0.01"/></default>
+  <worldbody>
+    <geom name="floor" type="plane" size="5 5 .1"/>
+    <body name="a" pos="0 0 1"><freejoint name="fa"/><geom name="abox" type="box" size=".1 .12 .1" mass="1.1"/></body>
+    <body name="b" pos="1 0 1"><freejoint name="fb"/><geom name="bsph" type="sphere" size=".1" mass="0.7"/></body>
+    <body name="c" pos="-1 0 1.5">
+      <joint name="h1" type="hinge" axis="0 1 0" damping="0.05"/>
+      <geom name="c1" type="capsule" fromto="0 0 0 0 0 -0.3" size=".04" mass="0.5"/>
+      <body name="c2b" pos="0 0 -0.3">
+        <joint name="h2" type="hinge" axis="0 1 0"/>
+        <geom name="c2" type="capsule" fromto="0 0 0 0 0 -0.28" size=".04" mass="0.4"/>
+      </body>
+    </body>
+  </worldbody>
+</mujoco>"""
+# call sequences over the per-world state alphabet {A airborne, C contact}: all of length 1 and 2 (letter i = world i)
+FREE_CALLS = ("AA", "AC", "CA", "CC")
+FREE_SEQS = tuple((a,) for a in FREE_CALLS) + tuple((a, b) for a in FREE_CALLS for b in FREE_CALLS)
+FREE_POISON = (0x00, 0xFF, 0x7F, 0xC3)  # = mc.world.POISON_ALPHABET (no warp import in the parent)
 SLEEP_FLAG = '<flag sleep="enable"/>'
 QUATS = ((1, 0, 0, 0), (0.9238795, 0.2209424, 0.2209424, 0.2209424), (0.9659258, 0.0, 0.1830127, -0.1830127), (0.8660254, -0.2886751, 0.2886751, 0.2886751))
 
@@ -99,7 +142,16 @@ def scenarios(tier, seed):
                 out.append(dict(scene=scene, jac=jac, cone=cone, nvmax=k, variant=variant, w1=s1))
   # simplest first: large capacities (no fault) before small ones
   out.sort(key=lambda s: (s["variant"] != seed % 4, -s["nvmax"]))
-  return out
+  # worlds without constraint rows: the smaller model, before the capacity grid
+  free = []
+  for variant in variants:
+    for seq in FREE_SEQS:
+      for jac in ("dense", "sparse"):
+        for cone in ("pyramidal", "elliptic"):
+          for poison in FREE_POISON:
+            free.append(dict(kind="free", seq=list(seq), jac=jac, cone=cone, poison=poison, variant=variant))
+  free.sort(key=lambda s: (s["variant"] != seed % 4, len(s["seq"])))
+  return free + out
 
 
 _M = {}
@@ -110,8 +162,9 @@ def _models(scene, jac, cone):
 
   key = (scene, jac, cone)
   if key not in _M:
-    mjm_s = util.load(XML.format(jac=jac, cone=cone, flag=SLEEP_FLAG, **SCENES[scene]))
-    mjm_n = util.load(XML.format(jac=jac, cone=cone, flag="", **SCENES[scene]))
+    xml, extra = (FREE_XML, {}) if scene == "free" else (XML, SCENES[scene])
+    mjm_s = util.load(xml.format(jac=jac, cone=cone, flag=SLEEP_FLAG, **extra))
+    mjm_n = util.load(xml.format(jac=jac, cone=cone, flag="", **extra))
     m_s, m_n = mjw.put_model(mjm_s), mjw.put_model(mjm_n)
     m_s.opt.warn_overflow = False
     m_n.opt.warn_overflow = False
@@ -321,7 +374,210 @@ def _place(mjm, d, variant, subsets):
     util.copy_state(_state(mjm, w, variant, s), d, world=w)
 
 
+# ------------------------------------------------------------------------------- worlds without constraint rows
+
+
+def _free_state(mjm, w, variant, letter, subset):
+  """MuJoCo data of world w in state `letter` (A airborne, C on the floor); trees outside `subset` get zero velocity."""
+  import mujoco
+
+  d = mujoco.MjData(mjm)
+  k = w + variant
+  jadr = lambda n: int(mjm.jnt_qposadr[mujoco.mj_name2id(mjm, mujoco.mjtObj.mjOBJ_JOINT, n)])
+  fa, fb = jadr("fa"), jadr("fb")
+  d.qpos[fa + 0] += 0.004 * k
+  d.qpos[fb + 1] -= 0.003 * k
+  if letter == "A":
+    d.qpos[fa + 2] = 0.8 + 0.1 * k
+    d.qpos[fa + 3 : fa + 7] = QUATS[k % 4]
+    d.qpos[fb + 2] = 0.6 + 0.05 * k
+  else:
+    d.qpos[fa + 2] = 0.098  # half height 0.1, upright: four corners 2 mm inside the floor
+    d.qpos[fb + 2] = 0.097 if variant % 2 == 0 else 0.6 + 0.05 * k  # odd alphabets: the sphere's tree has no row either
+  d.qpos[fb + 3 : fb + 7] = QUATS[(k + 1) % 4]
+  d.qpos[jadr("h1")] = 0.3 - 0.25 * k
+  d.qpos[jadr("h2")] = 0.2 + 0.15 * k
+  d.qvel[:] = 0.05 * np.cos(np.arange(mjm.nv) + k)
+  for t in range(mjm.ntree):
+    if not (subset >> t) & 1:
+      d.qvel[_tree_dofs(mjm, t)] = 0.0
+  return d
+
+
+def _free_place(mjm, d, variant, letters, subsets):
+  for w in range(NW):
+    util.copy_state(_free_state(mjm, w, variant, letters[w], subsets[w]), d, world=w)
+
+
+def _free_reference(key, letters, subsets, variant):
+  """Full solve (sleep disabled, fresh unpoisoned Data) of the per-world states `letters`, plus MuJoCo's nefc / qacc."""
+  import mujoco
+  import mujoco_warp as mjw
+
+  rk = (key, letters, tuple(subsets), variant)
+  if rk not in _REF:
+    if len(_REF) > 200:
+      _REF.clear()
+    _, _, mjm_n, m_n = _models(*key)
+    d = mjw.make_data(mjm_n, nworld=NW)
+    M, mj_nefc, mj_qacc = [], [], []
+    for w in range(NW):
+      st = _free_state(mjm_n, w, variant, letters[w], subsets[w])
+      util.copy_state(st, d, world=w)
+      mujoco.mj_forward(mjm_n, st)
+      M.append(util.mj_full_m(mjm_n, st))
+      mj_nefc.append(int(st.nefc))
+      mj_qacc.append(st.qacc.copy())
+    mjw.forward(m_n, d)
+    r = _grab(m_n, d)
+    r.update(M=M, mj_nefc=mj_nefc, mj_qacc=mj_qacc, qfrc_smooth=d.qfrc_smooth.numpy().copy())
+    _REF[rk] = r
+  return _REF[rk]
+
+
+def _free_step_reference(key, letters, variant):
+  """qpos / qvel after two steps of the sleep-disabled model from the all-awake states `letters`."""
+  import mujoco_warp as mjw
+
+  rk = (key, letters, "step2", variant)
+  if rk not in _REF:
+    _, _, mjm_n, m_n = _models(*key)
+    d = mjw.make_data(mjm_n, nworld=NW)
+    _free_place(mjm_n, d, variant, letters, (7, 7))
+    mjw.step(m_n, d)
+    mjw.step(m_n, d)
+    _REF[rk] = dict(qpos=d.qpos.numpy().copy(), qvel=d.qvel.numpy().copy())
+  return _REF[rk]
+
+
+def _free_mode(seq):
+  if len(seq) == 2:
+    return "history"
+  return {"AA": "airborne", "CC": "contact"}.get(seq[0], "mixed")
+
+
+def _free_oracle(c, tag, mode, mjm, m, d, letters, prev, want_awake, ref, counts, variant):
+  """C38 oracles for one finished forward() of the free scenes; `prev` = per-world letters of the previous call on this Data."""
+  got = _grab(m, d)
+  # trees that rest on the floor (see _free_state): box, and the sphere for even alphabets, in a C world
+  rowtrees = [() if letters[w] == "A" else ((0, 1) if variant % 2 == 0 else (0,)) for w in range(NW)]
+  awake = d.tree_awake.numpy()
+  for w in range(NW):
+    pre = f"{tag} world {w} ({letters[w]}): "
+    aw = [t for t in range(mjm.ntree) if awake[w, t] == 1]
+    # nothing couples the trees (the floor is static) and sleepers have zero velocity: the forced set must survive
+    c.equal(pre + "awake set after forward", np.array(aw), np.array([t for t in range(mjm.ntree) if (want_awake[w] >> t) & 1]), vkey=f"{mode}:awake_set_changed")
+    adofs = [i for t in aw for i in _tree_dofs(mjm, t)]
+    sdofs = [i for i in range(mjm.nv) if i not in adofs]
+    if sdofs:
+      counts["frozen_checked"] += 1
+      for f in OUT:
+        c.bits(pre + f"{f}[asleep]", got[f][w][sdofs], np.zeros(len(sdofs), np.float32), vkey=f"{mode}:frozen:{f}")
+    if not adofs:
+      continue
+    finite = True
+    for f in OUT:
+      c.nchecked += 1
+      if not np.all(np.isfinite(got[f][w][adofs])):
+        finite = False
+        c.fail(f"{mode}:{f}_nonfinite", pre + f"{f}[awake] is not finite: {got[f][w][adofs][:3].tolist()}..., full solve {ref[f][w][adofs][:3].tolist()}...")
+    if not finite:
+      continue
+    c.equal(pre + "overflow", int(got["overflow"][w]), int(ref["overflow"][w]), vkey=f"{mode}:overflow")
+    full = not sdofs
+    if not any(t in aw for t in rowtrees[w]):
+      # no awake tree has a constraint (A world, or a C world whose resting trees sleep: MJWarp drops a sleeper's contacts):
+      # MuJoCo and the full solve give qacc = qacc_smooth, qfrc_constraint = 0 exactly on these (uncoupled) trees.  The
+      # compacted solve takes Newton steps on M qacc = qfrc_smooth in float32: f32dyn (2e-4; measured <= 1e-5 of the scale on the repaired tree)
+      counts["rowless_worlds_checked"] += 1
+      if letters[w] == "A":
+        c.equal(pre + "nefc", int(got["nefc"][w]), 0, vkey=f"{mode}:nefc")
+      stale = prev is not None and prev[w] == "C"
+      c.close(
+        pre + ("qfrc_constraint[awake] (no rows now, rows in the previous call)" if stale else "qfrc_constraint[awake] (no rows)"),
+        got["qfrc_constraint"][w][adofs],
+        np.zeros(len(adofs)),
+        "f32dyn",
+        scale=1.0 + float(np.abs(ref["qfrc_smooth"][w]).max()),
+        vkey=f"{mode}:stale_qfrc_constraint" if stale else f"{mode}:qfrc_constraint_nonzero",
+      )
+      c.close(pre + "qacc_smooth[awake]", got["qacc_smooth"][w][adofs], ref["qacc_smooth"][w][adofs], "f32dyn", vkey=f"{mode}:qacc_smooth")
+      if c.close(pre + "qacc[awake] vs full solve", got["qacc"][w][adofs], ref["qacc"][w][adofs], "f32dyn", vkey=f"{mode}:qacc"):
+        c.close(pre + "qacc[awake] vs MuJoCo (no constraint)", got["qacc"][w][adofs], ref["mj_qacc"][w][adofs], "f32dyn", vkey=f"{mode}:qacc_vs_mujoco")
+    else:
+      if full:
+        c.equal(pre + "nefc", int(got["nefc"][w]), int(ref["nefc"][w]), vkey=f"{mode}:contact_world:nefc")
+      c.close(pre + "qacc_smooth[awake]", got["qacc_smooth"][w][adofs], ref["qacc_smooth"][w][adofs], "f32dyn", vkey=f"{mode}:contact_world:qacc_smooth")
+      c.close(pre + "qfrc_constraint[awake]", got["qfrc_constraint"][w][adofs], ref["qfrc_constraint"][w][adofs], "solver", vkey=f"{mode}:contact_world:qfrc_constraint")
+      _qacc_close(c, pre + "qacc[awake]", got["qacc"][w][adofs], ref["qacc"][w][adofs], ref["M"][w][np.ix_(adofs, adofs)], mjm, f"{mode}:contact_world:qacc")
+
+
+def _execute_free(scn):
+  import mujoco_warp as mjw
+  from mc import world
+
+  key = ("free", scn["jac"], scn["cone"])
+  mjm_s, m_s, mjm_n, m_n = _models(*key)
+  assert mjm_s.nv == 14 and mjm_s.ntree == 3
+  seq, variant, poison = [str(s) for s in scn["seq"]], scn["variant"], scn["poison"]
+  mode = _free_mode(seq)
+  c = util.Cmp()
+  counts = dict(extra_evaluations=-1, faults_injected=0, frozen_checked=0, rowless_worlds_checked=0)
+  # length 1: all awake in both worlds, then every subset of world 0 with the bijective image in world 1; histories: all awake
+  subs = [(7, 7)] + ([(s0, (3 * s0 + 5) % 8) for s0 in range(8)] if len(seq) == 1 else [])
+  # references on unpoisoned memory; MuJoCo's testimony that A worlds have no row and C worlds have some
+  refs = {(i, ss): _free_reference(key, letters, ss, variant) for i, letters in enumerate(seq) for ss in subs}
+  as_intended = all((refs[(i, (7, 7))]["mj_nefc"][w] == 0) == (letters[w] == "A") and (refs[(i, (7, 7))]["nefc"][w] == 0) == (letters[w] == "A") for i, letters in enumerate(seq) for w in range(NW))
+  step_ref = _free_step_reference(key, seq[0], variant) if len(seq) == 1 else None
+  tag0 = f"free/{scn['jac']}/{scn['cone']} poison={poison:#04x} calls={'>'.join(seq)}"
+
+  world.set_poison(poison)
+  try:
+    for ss in subs:
+      d = mjw.make_data(mjm_s, nworld=NW)
+      prev = None
+      for i, letters in enumerate(seq):
+        if i == 0:
+          _free_place(mjm_s, d, variant, letters, ss)
+          _garbage(d)
+          _force_awake(m_s, d, ss)
+        else:
+          # the same Data is moved to the next state: only qpos / qvel are replaced
+          st = [_free_state(mjm_s, w, variant, letters[w], ss[w]) for w in range(NW)]
+          util.set_field(d.qpos, np.stack([s.qpos for s in st]))
+          util.set_field(d.qvel, np.stack([s.qvel for s in st]))
+        mjw.forward(m_s, d)
+        counts["extra_evaluations"] += 1
+        _free_oracle(c, f"{tag0} call {i} awake={ss[0]:03b},{ss[1]:03b}", mode, mjm_s, m_s, d, letters, prev, ss, refs[(i, ss)], counts, variant)
+        prev = letters
+    if step_ref is not None:
+      # two steps from the all-awake state (10 steps below the velocity tolerance are needed to fall asleep)
+      d = mjw.make_data(mjm_s, nworld=NW)
+      _free_place(mjm_s, d, variant, seq[0], (7, 7))
+      mjw.step(m_s, d)
+      mjw.step(m_s, d)
+      counts["extra_evaluations"] += 2
+      for w in range(NW):
+        pre = f"{tag0} two steps, world {w} ({seq[0][w]}): "
+        tol = "f32dyn" if seq[0][w] == "A" else "solver"
+        for f in ("qvel", "qpos"):
+          g = getattr(d, f).numpy()[w]
+          c.nchecked += 1
+          if not np.all(np.isfinite(g)):
+            c.fail(f"{mode}:step2:{f}_nonfinite", pre + f"{f} is not finite: {g[:3].tolist()}..., sleep disabled {step_ref[f][w][:3].tolist()}...")
+          else:
+            c.close(pre + f, g, step_ref[f][w], tol, vkey=f"{mode}:step2:{f}")
+  finally:
+    world.set_poison(None)
+
+  counts["extra_evaluations"] = max(0, counts["extra_evaluations"])
+  return c.result(nontrivial=as_intended, key=util.sha(scn), counts=counts, info=dict(nv=mjm_s.nv, mode=mode, checked=c.nchecked, maxrel=round(c.maxrel, 8), as_intended=bool(as_intended)))
+
+
 def execute(scn):
+  if scn.get("kind") == "free":
+    return _execute_free(scn)
+
   import mujoco_warp as mjw
   from mujoco_warp._src import island, solver
 
